@@ -31,7 +31,7 @@ const LOSSY: &[(&str, u32)] = &[("drop", 120), ("crash_volatile", 60), ("dup", 2
 
 pub fn build(prop: &str, seed: u64, hist: u64, rng: &mut Rng, ids: &[String]) -> Scenario {
     let np = 2 + rng.below(4); // 2..=5 participants
-    let depth = 2 + rng.below(4);
+    let depth = 3 + rng.below(4);
     let mut flags = Flags::random(rng);
     let mut profile = "honest".to_string();
     let mut fault_cfg: BTreeMap<String, u32>;
@@ -44,6 +44,8 @@ pub fn build(prop: &str, seed: u64, hist: u64, rng: &mut Rng, ids: &[String]) ->
             if prop == "C17" && rng.chance(50) {
                 flags.streams = true;
                 flags.canon = true;
+                flags.scalar_ap = true;
+                flags.lenses = true;
                 flags.frag16 = false;
             }
             fault_cfg = if sub < 60 { pick_faults(rng, HONEST_LOSSLESS, 2) } else { pick_faults(rng, LOSSY, 2) };
@@ -155,9 +157,12 @@ pub fn build(prop: &str, seed: u64, hist: u64, rng: &mut Rng, ids: &[String]) ->
         flags.canon = true;
         flags.folds = true;
     }
+    let fixed = std::env::var("VERIF_FIXED_SCRIPT").unwrap_or_default();
     let ast = match prop {
+        _ if fixed == "f1" => crate::script2::gen_f1(rng, np),
         "C18" => script::gen_c18(rng, np),
         "C13" => script::gen_c13(rng, np),
+        "C11" if rng.chance(70) => crate::script2::gen_c11(rng, np),
         _ => script::generate(rng, np, &flags, depth),
     };
     let script_text = script::render(&ast, ids);
